@@ -181,6 +181,308 @@ theorem otsu_nan_rule (vs : List (Option Rat)) (i : Nat) (h : vs.findIdx? (· ==
     argmaxNaN vs = i := by
   unfold argmaxNaN; rw [h]
 
+/-! ### the one-pass variance computation equals the definition split by split -/
+
+/-- prefix sums: left weight and left first moment of the bins `0 .. n-1` -/
+def prefixSums (cs : List Nat) (ctr : Nat → Rat) (n : Nat) : Rat × Rat :=
+  (List.range n).foldl (fun acc j => (acc.1 + (cs.getD j 0 : Rat), acc.2 + (cs.getD j 0 : Rat) * ctr j)) (0, 0)
+
+theorem prefixSums_succ (cs : List Nat) (ctr : Nat → Rat) (n : Nat) :
+    prefixSums cs ctr (n + 1) =
+      ((prefixSums cs ctr n).1 + (cs.getD n 0 : Rat), (prefixSums cs ctr n).2 + (cs.getD n 0 : Rat) * ctr n) := by
+  simp [prefixSums, List.range_succ, List.foldl_append]
+
+theorem leftSums_eq (cs : List Nat) (ctr : Nat → Rat) (i : Nat) : leftSums cs ctr i = prefixSums cs ctr (i + 1) := rfl
+
+theorem variances_fold (cs : List Nat) (ctr : Nat → Rat) (W S : Rat) (n k : Nat) (acc : List (Option Rat)) :
+    (List.range' k n).foldl
+      (fun (st : Rat × Rat × List (Option Rat)) i =>
+        let w1 := st.1 + (cs.getD i 0 : Rat)
+        let s1 := st.2.1 + (cs.getD i 0 : Rat) * ctr i
+        (w1, s1, varianceOf W S w1 s1 :: st.2.2))
+      ((prefixSums cs ctr k).1, (prefixSums cs ctr k).2, acc)
+    = ((prefixSums cs ctr (k + n)).1, (prefixSums cs ctr (k + n)).2,
+        ((List.range' k n).map fun i => varianceOf W S (prefixSums cs ctr (i + 1)).1 (prefixSums cs ctr (i + 1)).2).reverse ++ acc) := by
+  induction n generalizing k acc with
+  | zero => simp
+  | succ n ih =>
+    simp only [List.range'_succ, List.foldl_cons]
+    have h := ih (k + 1) (varianceOf W S (prefixSums cs ctr (k + 1)).1 (prefixSums cs ctr (k + 1)).2 :: acc)
+    rw [prefixSums_succ] at h
+    simp only at h
+    rw [h]
+    simp only [List.map_cons, List.reverse_cons, List.append_assoc, List.singleton_append, prefixSums_succ cs ctr k]
+    have e : k + 1 + n = k + (n + 1) := by omega
+    rw [e]
+
+/-- **the list of variances computed in one pass is, split by split, the between-class variance
+of the split after bin `i`** -/
+theorem variances_spec (cs : List Nat) (ctr : Nat → Rat) :
+    variances cs ctr = (List.range (nbins - 1)).map fun i =>
+      varianceOf (leftSums cs ctr (nbins - 1)).1 (leftSums cs ctr (nbins - 1)).2 (leftSums cs ctr i).1 (leftSums cs ctr i).2 := by
+  unfold variances
+  simp only
+  have h := variances_fold cs ctr (leftSums cs ctr (nbins - 1)).1 (leftSums cs ctr (nbins - 1)).2 (nbins - 1) 0 []
+  rw [List.range_eq_range']
+  have h0 : prefixSums cs ctr 0 = (0, 0) := rfl
+  rw [h0] at h
+  simp only at h
+  rw [h]
+  simp [leftSums_eq]
+
+/-! ### the whole Otsu rule commutes with positive affine maps -/
+
+theorem foldl_min_le (xs : List Rat) (x : Rat) : xs.foldl min x ≤ x := by
+  induction xs generalizing x with
+  | nil => simp
+  | cons y ys ih => simp only [List.foldl_cons]; exact le_trans (ih _) (min_le_left _ _)
+
+theorem le_foldl_max (xs : List Rat) (x : Rat) : x ≤ xs.foldl max x := by
+  induction xs generalizing x with
+  | nil => simp
+  | cons y ys ih => simp only [List.foldl_cons]; exact le_trans (le_max_left _ _) (ih _)
+
+theorem foldl_min_le_mem (xs : List Rat) (x y : Rat) (h : y ∈ xs) : xs.foldl min x ≤ y := by
+  induction xs generalizing x with
+  | nil => cases h
+  | cons z zs ih =>
+    simp only [List.foldl_cons]
+    rcases List.mem_cons.mp h with rfl | h
+    · exact le_trans (foldl_min_le _ _) (min_le_right _ _)
+    · exact ih _ h
+
+theorem mem_le_foldl_max (xs : List Rat) (x y : Rat) (h : y ∈ xs) : y ≤ xs.foldl max x := by
+  induction xs generalizing x with
+  | nil => cases h
+  | cons z zs ih =>
+    simp only [List.foldl_cons]
+    rcases List.mem_cons.mp h with rfl | h
+    · exact le_trans (le_max_right _ _) (le_foldl_max _ _)
+    · exact ih _ h
+
+theorem minL_le_mem (xs : List Rat) (y : Rat) (h : y ∈ xs) : minL xs ≤ y := by
+  cases xs with
+  | nil => cases h
+  | cons x xs =>
+    rcases List.mem_cons.mp h with rfl | h
+    · exact foldl_min_le _ _
+    · exact foldl_min_le_mem _ _ _ h
+
+theorem mem_le_maxL (xs : List Rat) (y : Rat) (h : y ∈ xs) : y ≤ maxL xs := by
+  cases xs with
+  | nil => cases h
+  | cons x xs =>
+    rcases List.mem_cons.mp h with rfl | h
+    · exact le_foldl_max _ _
+    · exact mem_le_foldl_max _ _ _ h
+
+theorem minL_le_maxL (xs : List Rat) (hne : xs ≠ []) : minL xs ≤ maxL xs := by
+  cases xs with
+  | nil => exact absurd rfl hne
+  | cons x xs => exact le_trans (foldl_min_le _ _) (le_foldl_max _ _)
+
+theorem aff_inj {a b : Rat} (ha : 0 < a) (x y : Rat) (h : aff a b x = aff a b y) : x = y := by
+  unfold aff at h
+  have : a * (x - y) = 0 := by linarith
+  rcases mul_eq_zero.mp this with h | h
+  · exact absurd h ha.ne'
+  · linarith
+
+theorem histRange_nonconst (xs : List Rat) (hc : minL xs ≠ maxL xs) : histRange xs = (minL xs, maxL xs) := by
+  simp [histRange, hc]
+
+theorem histRange_affine {a b : Rat} (ha : 0 < a) (xs : List Rat) (hne : xs ≠ []) (hc : minL xs ≠ maxL xs) :
+    histRange (xs.map (aff a b)) = (aff a b (minL xs), aff a b (maxL xs)) := by
+  have : minL (xs.map (aff a b)) ≠ maxL (xs.map (aff a b)) := by
+    rw [minL_aff ha xs hne, maxL_aff ha xs hne]
+    exact fun h => hc (aff_inj ha _ _ h)
+  rw [histRange_nonconst _ this, minL_aff ha xs hne, maxL_aff ha xs hne]
+
+/-- the histogram is the same -/
+theorem counts_affine {a b : Rat} (ha : 0 < a) (xs : List Rat) (hne : xs ≠ []) (hc : minL xs ≠ maxL xs) :
+    counts (xs.map (aff a b)) = counts xs := by
+  have hlt : minL xs < maxL xs := lt_of_le_of_ne (minL_le_maxL xs hne) hc
+  unfold counts
+  rw [histRange_affine ha xs hne hc, histRange_nonconst xs hc]
+  simp only [List.map_map]
+  have : (binIdx (aff a b (minL xs)) (aff a b (maxL xs)) ∘ aff a b) = binIdx (minL xs) (maxL xs) := by
+    funext x; exact binIdx_affine ha _ _ x hlt
+  rw [this]
+
+theorem prefixSums_affine (a b : Rat) (cs : List Nat) (ctr : Nat → Rat) (n : Nat) :
+    prefixSums cs (fun j => aff a b (ctr j)) n =
+      ((prefixSums cs ctr n).1, a * (prefixSums cs ctr n).2 + b * (prefixSums cs ctr n).1) := by
+  induction n with
+  | zero => simp [prefixSums]
+  | succ n ih =>
+    rw [prefixSums_succ, prefixSums_succ, ih]
+    simp only [aff, Prod.mk.injEq, true_and]
+    ring
+
+/-- the between-class variance of every split is multiplied by `a²` -/
+theorem varianceOf_affine (a b W S w1 s1 : Rat) :
+    varianceOf W (a * S + b * W) w1 (a * s1 + b * w1) = (varianceOf W S w1 s1).map fun v => a * a * v := by
+  unfold varianceOf
+  simp only
+  split_ifs with h
+  · rfl
+  · rw [not_or] at h
+    obtain ⟨h1, h2⟩ := h
+    simp only [Option.map_some, Option.some.injEq]
+    field_simp
+    ring
+
+theorem variances_affine (a b : Rat) (cs : List Nat) (ctr : Nat → Rat) :
+    variances cs (fun j => aff a b (ctr j)) = (variances cs ctr).map (Option.map fun v => a * a * v) := by
+  rw [variances_spec, variances_spec, List.map_map]
+  apply List.map_congr_left
+  intro i _
+  simp only [Function.comp, leftSums_eq, prefixSums_affine]
+  exact varianceOf_affine a b _ _ _ _
+
+theorem argmaxNaN_go_scale (c : Rat) (hc : 0 < c) (vs : List (Option Rat)) (best : Nat) (bv : Rat) (i : Nat) :
+    argmaxNaN.go best (c * bv) i (vs.map (Option.map fun v => c * v)) = argmaxNaN.go best bv i vs := by
+  induction vs generalizing best bv i with
+  | nil => rfl
+  | cons o rest ih =>
+    cases o with
+    | none => simp only [List.map_cons, Option.map_none, argmaxNaN.go]; exact ih _ _ _
+    | some v =>
+      simp only [List.map_cons, Option.map_some, argmaxNaN.go]
+      have : (c * bv < c * v) ↔ (bv < v) := by
+        constructor <;> intro h <;> nlinarith
+      by_cases hlt : bv < v
+      · rw [if_pos (this.mpr hlt), if_pos hlt]; exact ih _ _ _
+      · rw [if_neg (fun h => hlt (this.mp h)), if_neg hlt]; exact ih _ _ _
+
+/-- `np.argmax` does not see a common positive factor -/
+theorem argmaxNaN_scale (c : Rat) (hc : 0 < c) (vs : List (Option Rat)) :
+    argmaxNaN (vs.map (Option.map fun v => c * v)) = argmaxNaN vs := by
+  unfold argmaxNaN
+  have hf : (vs.map (Option.map fun v => c * v)).findIdx? (· == none) = vs.findIdx? (· == none) := by
+    rw [List.findIdx?_map]
+    congr 1
+    funext o
+    cases o <;> rfl
+  rw [hf]
+  cases hfi : vs.findIdx? (· == none) with
+  | some i => rfl
+  | none =>
+    simp only
+    cases vs with
+    | nil => rfl
+    | cons o rest =>
+      cases o with
+      | none => rfl
+      | some v => simp only [List.map_cons, Option.map_some]; exact argmaxNaN_go_scale c hc rest 0 v 1
+
+/-- **Otsu's threshold commutes with positive affine maps of the intensities** (non-constant
+data): the same bin is selected and its centre is the image of the old centre. -/
+theorem otsu_affine {a b : Rat} (ha : 0 < a) (xs : List Rat) (hne : xs ≠ []) (hc : minL xs ≠ maxL xs) :
+    otsu (xs.map (aff a b)) = aff a b (otsu xs) := by
+  have hidx : otsuIdx (xs.map (aff a b)) = otsuIdx xs := by
+    unfold otsuIdx
+    rw [histRange_affine ha xs hne hc, histRange_nonconst xs hc, counts_affine ha xs hne hc]
+    simp only
+    have : center (aff a b (minL xs)) (aff a b (maxL xs)) = fun j => aff a b (center (minL xs) (maxL xs) j) := by
+      funext j; exact center_affine a b _ _ j
+    rw [this, variances_affine]
+    exact argmaxNaN_scale (a * a) (mul_pos ha ha) _
+  unfold otsu
+  rw [histRange_affine ha xs hne hc, histRange_nonconst xs hc]
+  simp only
+  rw [hidx, center_affine]
+
+/-- hence the binary image obtained with the rule 'otsu' is unchanged -/
+theorem otsu_mask_affine {a b : Rat} (ha : 0 < a) (xs : List Rat) (hne : xs ≠ []) (hc : minL xs ≠ maxL xs) :
+    binarize (thresholdOf .otsu (xs.map (aff a b))) (xs.map (aff a b)) = binarize (thresholdOf .otsu xs) xs := by
+  simp only [thresholdOf]
+  rw [otsu_affine ha xs hne hc, binarize_affine ha]
+
+/-! #### constant data -/
+
+theorem binIdx_mid (x : Rat) : binIdx (x - 1 / 2) (x + 1 / 2) x = 128 := by
+  unfold binIdx nbins
+  have : (x - (x - 1 / 2)) / (x + 1 / 2 - (x - 1 / 2)) * ((256 : Nat) : Rat) = ((128 : Nat) : Rat) := by
+    push_cast; ring
+  rw [this]
+  have hf : Rat.floor ((128 : Nat) : Rat) = 128 := by
+    show ⌊((128 : Nat) : Rat)⌋ = 128
+    exact_mod_cast Int.floor_natCast (R := Rat) 128
+  rw [hf]; rfl
+
+theorem const_mem (xs : List Rat) (hc : minL xs = maxL xs) (x : Rat) (h : x ∈ xs) : x = minL xs :=
+  le_antisymm (by rw [hc]; exact mem_le_maxL xs x h) (minL_le_mem xs x h)
+
+/-- **constant data**: every value falls into bin 128, every split below it has an empty class,
+`np.argmax` returns the first of them, and the threshold is the centre of bin 0 of the widened
+range `[x-½, x+½]` — strictly below the data -/
+theorem otsu_constant (xs : List Rat) (hc : minL xs = maxL xs) :
+    otsu xs = minL xs - 1 / 2 + 1 / 512 := by
+  have hr : histRange xs = (minL xs - 1 / 2, minL xs + 1 / 2) := by simp [histRange, hc]
+  have hcount : (counts xs).getD 0 0 = 0 := by
+    unfold counts
+    rw [hr]
+    simp only [nbins, List.getD, List.getElem?_map, List.getElem?_range (by norm_num : 0 < 256), Option.map_some,
+      Option.getD_some]
+    rw [List.count_eq_zero]
+    intro hm
+    obtain ⟨x, hx, he⟩ := List.mem_map.mp hm
+    rw [const_mem xs hc x hx, binIdx_mid] at he
+    cases he
+  have hidx : otsuIdx xs = 0 := by
+    unfold otsuIdx
+    rw [hr]
+    simp only
+    rw [variances_spec]
+    have : nbins - 1 = 254 + 1 := rfl
+    rw [this, List.range_succ_eq_map, List.map_cons]
+    have hnone : varianceOf (leftSums (counts xs) (center (minL xs - 1 / 2) (minL xs + 1 / 2)) (254 + 1)).1
+        (leftSums (counts xs) (center (minL xs - 1 / 2) (minL xs + 1 / 2)) (254 + 1)).2
+        (leftSums (counts xs) (center (minL xs - 1 / 2) (minL xs + 1 / 2)) 0).1
+        (leftSums (counts xs) (center (minL xs - 1 / 2) (minL xs + 1 / 2)) 0).2 = none := by
+      have h0 : (leftSums (counts xs) (center (minL xs - 1 / 2) (minL xs + 1 / 2)) 0).1 = 0 := by
+        rw [leftSums_eq, prefixSums_succ, hcount]
+        simp [prefixSums]
+      unfold varianceOf
+      simp only [h0, true_or, if_true]
+    rw [hnone]
+    unfold argmaxNaN
+    simp [List.findIdx?_cons]
+  unfold otsu
+  rw [hr]
+  simp only
+  rw [hidx]
+  unfold center nbins
+  push_cast
+  ring
+
+/-- for constant data the rule 'otsu' marks every cell, before and after a positive affine map:
+the binary image is unchanged in this case too -/
+theorem otsu_mask_affine_const {a b : Rat} (ha : 0 < a) (xs : List Rat) (hne : xs ≠ []) (hc : minL xs = maxL xs) :
+    binarize (thresholdOf .otsu (xs.map (aff a b))) (xs.map (aff a b)) = binarize (thresholdOf .otsu xs) xs := by
+  have hall : ∀ ys : List Rat, minL ys = maxL ys → binarize (thresholdOf .otsu ys) ys = ys.map fun _ => true := by
+    intro ys hys
+    simp only [thresholdOf, binarize]
+    apply List.map_congr_left
+    intro y hy
+    have : otsu ys < y := by
+      rw [otsu_constant ys hys, const_mem ys hys y hy]
+      linarith
+    exact decide_eq_true this
+  have hc2 : minL (xs.map (aff a b)) = maxL (xs.map (aff a b)) := by
+    rw [minL_aff ha xs hne, maxL_aff ha xs hne, hc]
+  rw [hall _ hc2, hall _ hc]
+  simp
+
+/-- **Positive affine changes of the intensities leave the binary image of the rule 'otsu'
+unchanged**, for all non-empty data. -/
+theorem otsu_mask_affine_all {a b : Rat} (ha : 0 < a) (xs : List Rat) (hne : xs ≠ []) :
+    binarize (thresholdOf .otsu (xs.map (aff a b))) (xs.map (aff a b)) = binarize (thresholdOf .otsu xs) xs := by
+  by_cases hc : minL xs = maxL xs
+  · exact otsu_mask_affine_const ha xs hne hc
+  · exact otsu_mask_affine ha xs hne hc
+
 /-! ### the size filter -/
 
 theorem removeSmall_go {β : Type} (radius : β → Rat) (minR : Rat) (pre suf : List β)
